@@ -694,11 +694,13 @@ PROPERTIES["C03"] = {
          "encoded": ["nano::bundle_t::{bundle_t, moveto, append, solve, delete_inactive, delete_largest, store_aggregate, append_aggregate, econverged, sconverged, smeared_e, smeared_s}",
                      "nano::solver_ellipsoid_t::do_minimize", "nano::solver_t::done", "nano::solver_state_t::update_if_better", "nano::remove_if"]},
         # outer loops of RQB / FPBA1 / FPBA2 with the curve search replaced by an arbitrary one (arbitrary status, arbitrary point,
-        # serious steps only with f(y) <= f(centre)): the returned state is at least as good as the centre the converging curve
+        # arbitrary multipliers on the simplex, serious steps only with f(y) <= f(centre)); bsize=<bundle::max_size>: the bundle's
+        # size invariant 1 <= size() < capacity() at every call, for every pattern of active / inactive cuts: the returned state is at least as good as the centre the converging curve
         # search certified, truthful, and (RQB) equal to it; centre bookkeeping across serious / null steps
         {"engine": "sre", "harness": "C03_outer", "sources": ["C03_outer.cpp"], "flags": ["-fno-access-control"],
-         "quick": ["solver=rqb;d=1", "solver=fpba1;d=1", "solver=fpba2;d=1", "solver=rqb;d=2"],
-         "thorough": ["solver=%s;d=%d;evals=%d" % (sv, d, e) for sv in ("rqb", "fpba1", "fpba2") for (d, e) in ((1, 10), (2, 10), (1, 14))],
+         "quick": ["solver=rqb;d=1", "solver=fpba1;d=1", "solver=fpba2;d=1", "solver=rqb;d=2", "solver=rqb;d=1;bsize=3;evals=12", "solver=fpba1;d=1;bsize=2;evals=12", "solver=fpba2;d=1;bsize=3;evals=12"],
+         "thorough": ["solver=%s;d=%d;evals=%d" % (sv, d, e) for sv in ("rqb", "fpba1", "fpba2") for (d, e) in ((1, 10), (2, 10), (1, 14))] +
+                     ["solver=%s;d=1;bsize=%d;evals=%d" % (sv, b, e) for sv in ("rqb", "fpba1", "fpba2") for (b, e) in ((2, 14), (3, 14), (4, 16), (5, 18))],
          "budget": {"quick": {"deadline_s": 40, "max_paths": 4000, "query_s": 5}, "thorough": {"deadline_s": 600, "max_paths": 200000, "query_s": 20}},
          "encoded": ["nano::solver_rqb_t::do_minimize", "nano::base_solver_fpba_t<nesterov_sequence1_t / 2_t>::do_minimize", "nano::bundle_t::{make, moveto, append, x, fx, gx, smeared_s}", "nano::proximity_t::{make, update, miu}",
                      "nano::nesterov_sequence1_t / 2_t::{update, reset}", "nano::solver_state_t::{update, update_if_better, update_calls}", "nano::solver_t::done", "csearch_t::search replaced by an arbitrary curve search (link time)"]},
